@@ -33,6 +33,12 @@ StepOK(rec) ==
     [] rec.act = "Remove" -> RemoveCore(rec.o) \/ RemoveAbsentCore(rec.o)
     [] rec.act = "Update" /\ rec.res = "ok" ->
           LET a == [u |-> rec.a.u, g |-> rec.a.g, c |-> rec.a.c, m |-> Rng(rec.a.m)] IN UpdateCore(rec.o, a)
+    \* a refused update (unique key of another stored object): the object is kept or given up, nothing else changes
+    [] rec.act = "Update" /\ rec.res = "rejected" ->
+          LET a == [u |-> rec.a.u, g |-> rec.a.g, c |-> rec.a.c, m |-> Rng(rec.a.m)]
+          IN /\ rec.o \in objs /\ ~UFree(rec.o, a.u)
+             /\ attr' = [attr EXCEPT ![rec.o] = a]
+             /\ objs' \in {objs, objs \ {rec.o}}
     [] rec.act = "Clear" -> ClearCore \/ (objs = {} /\ UNCHANGED <<objs, attr, idx>>)
     [] OTHER -> FALSE
 
